@@ -1,6 +1,6 @@
 """SS: sibling agreement and small structural rules (C12, C13, C14, C15, C18, C19, C20)."""
 import hirutil as H
-from hp import (Ctx, ANY, K, L, F, M, C, BIN, UN, CAST, TRY, P, VIA, OR, IF, CONTAINS, find, strip, canon,
+from hp import (ANY_FIELD, Ctx, ANY, K, L, F, M, C, BIN, UN, CAST, TRY, P, VIA, OR, IF, CONTAINS, find, strip, canon,
                 struct_field_inits)
 from facts import callee_of, op_local, op_place, place_key, resolve_ref, value_def, field_path
 from common import loc_of
@@ -27,6 +27,8 @@ def _closure_cmp(ctx, e):
         recv = strip(body['recv'])
         if recv.get('k') == 'field' and recv.get('n') == 'time':
             return strip(body['args'][0])
+        if recv.get('k') == 'mcall' and recv.get('name') in ('time', 'timestamp') and not recv.get('args'):
+            return strip(body['args'][0])       # `probe.time()` accessor of a private trait
         return False
     return False
 
@@ -67,7 +69,7 @@ def run_c13(facts, out):
                 cmpx = _closure_cmp(ctx, sc['args'][0])
                 if cmpx is None or cmpx is False:
                     why = why or 'comparator is not `probe.time.total_cmp(..)` (a total order on time is required)'
-                elif not F(L('self'), 'time').m(ctx, cmpx):
+                elif not OR(F(L('self'), 'time'), M('time', L('self')), M('timestamp', L('self'))).m(ctx, cmpx):
                     why = why or 'comparator does not compare against the new point\'s own time'
                 arms = {}
                 for a in mm['arms']:
@@ -151,39 +153,8 @@ def run_c13(facts, out):
 
 
 def _inlined_body(facts, hfn):
-    """the function body with calls of crate-local helpers replaced by the helper's body in which the
-    parameters are replaced by the argument expressions (one level; closures passed as arguments are
-    applied where the helper calls them)"""
-    def beta(n):
-        # `f(x)` where f was substituted by a closure `|p| body` -> body[p := x]
-        if isinstance(n, dict):
-            if n.get('k') == 'call' and isinstance(n.get('f'), dict) and strip(n['f']).get('k') == 'closure':
-                cl = strip(n['f'])
-                ps = cl.get('params', [])
-                if len(ps) == len(n['args']) and all(p.get('k') == 'bind' for p in ps):
-                    return beta(H.subst(cl['body'], {p['name']: a for p, a in zip(ps, n['args'])}))
-            return {k: (v if k in H.CHILD_SKIP else beta(v)) for k, v in n.items()}
-        if isinstance(n, list):
-            return [beta(x) for x in n]
-        return n
-
-    def inline(n):
-        if isinstance(n, dict):
-            d, cargs = None, None
-            if n.get('k') == 'call' and n['f'].get('k') == 'path':
-                d, cargs = n['f'].get('def'), list(n['args'])
-            elif n.get('k') == 'mcall':
-                d, cargs = n.get('def'), [n['recv']] + list(n['args'])
-            if d and dict.__contains__(facts.hir, d) and d != hfn['path']:
-                h2 = facts.hir[d]
-                mapping = H.param_mapping(h2, cargs)
-                if mapping:
-                    return beta(H.subst(h2['body'], mapping))
-            return {k: (v if k in H.CHILD_SKIP else inline(v)) for k, v in n.items()}
-        if isinstance(n, list):
-            return [inline(x) for x in n]
-        return n
-    return inline(hfn['body'])
+    """the function body with calls of crate-local helpers inlined (see hirutil.inline_calls)"""
+    return H.inline_calls(facts, hfn, depth=2)
 
 
 def _check_lookup(facts, hfn, kind, lst):
@@ -375,12 +346,18 @@ def run_c12(facts, out):
     hfn = facts.hir.get(fl)
     out.anchor('SS-C12', 'flush_pending_points', hfn is not None)
     if hfn is not None:
-        ctx = Ctx(facts, H.binding_inits(hfn), hfn)
+        # the four pending slots are recognised by their type (Option<TimingPoint> ..), wherever they live
+        vh = H.inlined_fn(facts, hfn, depth=2, keep=('ControlPoints::add',))
+        ctx = Ctx(facts, H.binding_inits(vh), vh)
         taken = set()
-        for kind in ('timing', 'difficulty', 'effect', 'sample'):
-            if find(ctx, hfn['body'], M('take', F(L('self'), 'pending_%s_point' % kind))):
-                taken.add(kind)
-        nadd = len(find(ctx, hfn['body'], M('add', F(L('self'), 'control_points'), L('point'))))
+        for (n, _a) in find(ctx, vh['body'], M('take', ANY())):
+            rty = strip(strip(n)['recv']).get('ty', '') or ''
+            for kind, tyname in (('timing', 'TimingPoint'), ('difficulty', 'DifficultyPoint'), ('effect', 'EffectPoint'),
+                                 ('sample', 'SamplePoint')):
+                if 'Option<' in rty and rty.rstrip('>').endswith('::' + tyname):
+                    taken.add(kind)
+        nadd = len([1 for (n, _a) in find(ctx, vh['body'], M('add', ANY(), ANY()))
+                    if (strip(n).get('def') or '').endswith('ControlPoints::add')])
         ok = len(taken) == 4 and nadd == 4
         bb = facts.body(fl)
         out.add('SS-C12', fl, 'flush-all-kinds', '%s:%d' % (bb.file, bb.line), ok,
@@ -412,8 +389,19 @@ def run_c12(facts, out):
     if hfn is not None:
         ctx = Ctx(facts, H.binding_inits(hfn), hfn)
         bb = facts.body(ac)
-        p1 = find(ctx, hfn['body'], IF(BIN('Ge', M('abs', BIN('Sub', L('time'), F(L('self'), 'pending_control_points_time'))), ANY()),
-                                        CONTAINS(M('flush_pending_points', L('self')))))
+        flushes = OR(M('flush_pending_points', ANY()), M('flush_into', ANY(), ANY()), M('flush', ANY()), M('flush', ANY(), ANY()))
+        p1 = find(ctx, hfn['body'], IF(BIN('Ge', M('abs', BIN('Sub', L('time'), F(ANY(), ANY_FIELD))), ANY()), CONTAINS(flushes)))
+        if not p1:
+            # any method of the crate whose (inlined) body flushes the four slots
+            def is_flush_call(n):
+                n = strip(n)
+                d = n.get('def') if n.get('k') == 'mcall' else (n['f'].get('def') if n.get('k') == 'call' and n['f'].get('k') == 'path' else None)
+                return bool(d) and dict.__contains__(facts.hir, d) and 'flush' in d.rsplit('::', 1)[-1]
+            for (n, _a) in find(ctx, hfn['body'], IF(BIN('Ge', M('abs', BIN('Sub', L('time'), ANY())), ANY()), ANY())):
+                found = []
+                H.walk(strip(n)['t'], lambda x, anc: found.append(x) if x.get('k') in ('call', 'mcall') and is_flush_call(x) else None)
+                if found:
+                    p1 = [(n, _a)]
         out.add('SS-C12', ac, 'flush-on-time-change', '%s:%d' % (bb.file, bb.line), bool(p1),
                 '' if p1 else 'the pending group is not flushed when the time changes', ordinal=False)
         ifs = [n for (n, _a) in find(ctx, hfn['body'], IF(L('timing_change'), ANY(), ANY()))]
@@ -444,7 +432,7 @@ def run_c12(facts, out):
             nonlocal sets_time
             if n.get('k') == 'assign':
                 fc = H.field_chain(n['l'])
-                if fc and fc[1] == ['pending_control_points_time'] and L('time').m(ctx, n['r']):
+                if fc and fc[1] and ('time' in fc[1][-1]) and fc[0] in ('self', 'state') and L('time').m(ctx, n['r']):
                     sets_time = True
         H.walk(hfn['body'], vt)
         out.add('SS-C12', ac, 'remembers-group-time', '%s:%d' % (bb.file, bb.line), sets_time,
@@ -604,9 +592,24 @@ def run_c15(facts, out):
     sortb = [(bb, t) for bb, t in b.calls() if callee_of(t) and callee_of(t)['name'] in
              ('sort_by', 'sort_unstable_by', 'sort', 'sort_by_key', 'sort_unstable', 'sort_unstable_by_key', 'sort_by_cached_key')]
     ppb = [(bb, t) for bb, t in b.calls() if callee_of(t) and facts.ref_name(callee_of(t)) == 'post_process_breaks']
-    durb = [(bb, t) for bb, t in b.calls() if callee_of(t) and callee_of(t)['name'] in ('duration_with_bufs', 'end_time_with_bufs',
-                                                                                            'timing_point_at', 'sample_point_at')]
-    out.anchor('SS-C15', 'sort / break post-processing / velocity loop calls', len(sortb) == 1 and len(ppb) == 1 and len(durb) >= 3,
+    LOOP_CALLS = ('duration_with_bufs', 'end_time_with_bufs', 'timing_point_at', 'sample_point_at')
+
+    def does_loop_work(path, depth=0, seen=None):
+        """a crate-local function that (transitively) performs the velocity / sample-point lookups"""
+        seen = seen if seen is not None else set()
+        b2 = facts.bodies.get(path)
+        if b2 is None or path in seen or depth > 2:
+            return False
+        seen.add(path)
+        for _bb, t2 in b2.calls():
+            c2 = callee_of(t2)
+            if c2 and (c2['name'] in LOOP_CALLS or (c2.get('local') and does_loop_work(c2['path'], depth + 1, seen))):
+                return True
+        return False
+    durb = [(bb, t) for bb, t in b.calls() if callee_of(t) and (
+        callee_of(t)['name'] in LOOP_CALLS or
+        (callee_of(t).get('local') and facts.ref_name(callee_of(t)) != 'post_process_breaks' and does_loop_work(callee_of(t)['path'])))]
+    out.anchor('SS-C15', 'sort / break post-processing / velocity loop calls', len(sortb) == 1 and len(ppb) == 1 and len(durb) >= 1,
                'sort=%d breaks=%d loop=%d' % (len(sortb), len(ppb), len(durb)))
     if len(sortb) == 1 and len(ppb) == 1 and durb:
         sb, st = sortb[0]
@@ -666,28 +669,19 @@ def run_curve_siblings(facts, out):
     if a is not None and bb is not None:
         for name, h in (('Curve::new', a), (bfn, bb)):
             ctx = Ctx(facts, H.binding_inits(h), h)
-            p1 = find(ctx, h['body'], C('calculate_path', L('mode'), L('points'), L('bufs'), ANY()))
-            p2 = find(ctx, h['body'], C('calculate_length', L('bufs'), L('expected_len'), L('optimized_len')))
-            ok = len(p1) == 1 and len(p2) == 1
-            if not ok:
-                # one level of helper: f(mode, points, expected_len, bufs) holding the two calls
-                for (n, _a) in find(ctx, h['body'], ANY()):
-                    n = strip(n)
-                    if isinstance(n, dict) and n.get('k') == 'call' and n['f'].get('k') == 'path' \
-                            and n['f'].get('def') in facts.hir and len(n['args']) == 4:
-                        names = []
-                        for a_ in n['args']:
-                            a2 = strip(a_)
-                            names.append(a2.get('name') if a2.get('k') == 'local' else None)
-                        h3 = facts.hir[n['f']['def']]
-                        ps = [p_.get('name') for p_ in h3['params']]
-                        if set(names) == {'mode', 'points', 'expected_len', 'bufs'} and len(ps) == 4:
-                            ren = dict(zip(names, ps))
-                            c3 = Ctx(facts, H.binding_inits(h3), h3)
-                            q1 = find(c3, h3['body'], C('calculate_path', L(ren['mode']), L(ren['points']), L(ren['bufs']), ANY()))
-                            q2 = find(c3, h3['body'], C('calculate_length', L(ren['bufs']), L(ren['expected_len']), ANY()))
-                            if len(q1) == 1 and len(q2) == 1:
-                                ok = True
+            # both constructors run calculate_path(mode, points, bufs[, &mut optimized_len]) and then
+            # calculate_length(bufs, expected_len, optimized_len) on their own parameters -- directly or through a
+            # shared private helper (looked at with its call inlined)
+            ok = False
+            for dpt in (0, 1, 2):
+                vh = H.inlined_fn(facts, h, depth=dpt, keep=('calculate_path', 'calculate_length')) if dpt else h
+                c3 = Ctx(facts, H.binding_inits(vh), vh)
+                p1 = find(c3, vh['body'], OR(C('calculate_path', L('mode'), L('points'), L('bufs'), ANY()),
+                                             C('calculate_path', L('mode'), L('points'), L('bufs'))))
+                p2 = find(c3, vh['body'], C('calculate_length', L('bufs'), L('expected_len'), ANY()))
+                if len(p1) == 1 and len(p2) == 1:
+                    ok = True
+                    break
             body = facts.body(CUR + 'Curve::new' if name == 'Curve::new' else bfn)
             out.add('SS-C18', body.path, 'constructor-calls', '%s:%d' % (body.file, body.line), ok,
                     '' if ok else ('the curve constructor must call calculate_path(mode, points, bufs, ..) and '
